@@ -12,7 +12,7 @@ from ref import funcs as F
 MANIFEST = {
     'engine': 'E1',
     'technique': 'bounded exhaustive enumeration of per-function argument domains on the real code vs reference definitions audited against Excel-computed values',
-    'text': 'Each of the ~100 listed worksheet functions is executed through Cell.compile on its whole domain table: every value of a fixed pool '
+    'text': 'Text functions are also run on text holding tabs, line feeds, CR LF, no-break and em spaces (typed and referenced); SUMPRODUCT on every pair of 1-D/2-D block shapes incl. equal cell counts in different shapes. ' 'Each of the ~100 listed worksheet functions is executed through Cell.compile on its whole domain table: every value of a fixed pool '
             '(13 numbers incl. 1.15, 2.675, 1.005, 1E+15, 1E-7; 7 texts; logicals; blank; the 7 errors) in both spellings (typed / referenced cell) '
             'per argument, digits -2..3, positions -1..len+1, optional arguments present and absent - full product where <= 4000 tuples, else a default '
             'tuple with <= 2 deviating positions - and, for aggregations, every ordered content of length <= 3 over {number, logical, text, blank, error} '
